@@ -45,8 +45,8 @@ impl Campaign for C06c {
     }
     fn runs(&self, tier: Tier) -> u64 {
         match tier {
-            Tier::Quick => 10_000,
-            Tier::Thorough => 500_000,
+            Tier::Quick => 100_000,
+            Tier::Thorough => 3_000_000,
         }
     }
     fn generate(&self, rng: &mut Rng, index: u64, _tier: Tier) -> Scenario {
